@@ -1117,7 +1117,7 @@ pub fn generate(r: &mut Rng, cfg: &GenCfg) -> Program {
     if cfg.feat.tf {
         g.tf_switch(true);
     }
-    let n = g.r.urange(cfg.body_lo, cfg.body_hi);
+    let n = g.r.urange(cfg.body_lo.min(cfg.body_hi), cfg.body_hi.max(cfg.body_lo));
     let clear_at = if cfg.feat.tf && g.r.chance(50) { Some(g.r.urange(0, n)) } else { None };
     for i in 0..n {
         if Some(i) == clear_at {
